@@ -213,8 +213,14 @@ def r16_1(ctx: Ctx) -> None:
     _check_function(ctx, RP, "pre_process_sequences", registry, func)
     param = func.args.args[0].arg
     inits = [v for name in _aliases(func, registry) for v in bound_from(func, name)]
-    ok = any(isinstance(v, ast.SetComp) and len(v.generators) == 1 and txt(v.generators[0].iter) == param
-             and not v.generators[0].ifs and txt(v.elt) == f"{txt(v.generators[0].target)}.id" for v in inits)
+    def _all_ids(v: ast.AST) -> bool:
+        comp = v
+        if isinstance(v, ast.Call) and call_name(v) in ("set", "frozenset") and len(v.args) == 1 and not v.keywords:
+            comp = v.args[0]
+        return isinstance(comp, (ast.SetComp, ast.GeneratorExp, ast.ListComp)) and (comp is not v or isinstance(v, ast.SetComp)) \
+            and len(comp.generators) == 1 and txt(comp.generators[0].iter) == param \
+            and not comp.generators[0].ifs and txt(comp.elt) == f"{txt(comp.generators[0].target)}.id"
+    ok = any(_all_ids(v) for v in inits)
     ctx.ob("R16.1", RP, func, "pre_process_sequences", "registry initialised", ok,
            "the registry starts as the set of all input ids", form=str([txt(v)[:60] for v in inits]))
     loop = [lp for lp in enclosing_loops(fix[0], stop=func) if isinstance(lp, ast.For)]
@@ -224,7 +230,8 @@ def r16_1(ctx: Ctx) -> None:
     gen = ctx.fn(RP, "generate_unique_id")
     gcfg = CFG(gen)
     existing = _aliases(gen, gen.args.args[1].arg) if len(gen.args.args) > 1 else set()
-    loops = [n for n in walk_local(gen) if isinstance(n, ast.While)]
+    loops = [n for n in walk_local(gen) if isinstance(n, ast.While)
+             or (isinstance(n, ast.For) and any(isinstance(b, ast.Break) for b in walk_local(n)))]
     rets = [r for r in walk_local(gen) if isinstance(r, ast.Return) and r.value is not None]
     ok = len(loops) == 1 and bool(rets)
     form = ""
@@ -233,13 +240,13 @@ def r16_1(ctx: Ctx) -> None:
         # on every path to the return the returned candidate was last seen to be absent from the set: a (still fresh)
         # `candidate in existing` that was false, whether it is the loop's own test or the test of a break inside it
         free = []
-        for expr, truth in path_facts(gcfg, ret, fresh_only=True):
+        for expr, truth in path_facts(gcfg, ret, fresh_only=True, asserts=True):
             cmp_ = expr
             while isinstance(cmp_, ast.UnaryOp) and isinstance(cmp_.op, ast.Not):
                 cmp_, truth = cmp_.operand, not truth
             if isinstance(cmp_, ast.Compare) and len(cmp_.ops) == 1 and txt(cmp_.comparators[0]) in existing \
                     and (isinstance(cmp_.ops[0], ast.In) and not truth or isinstance(cmp_.ops[0], ast.NotIn) and truth) \
-                    and any(a is loops[0] for a in _ancestors(cmp_)):
+                    and (any(a is loops[0] for a in _ancestors(cmp_)) or any(isinstance(a, ast.Assert) for a in _ancestors(cmp_))):
                 free.append(cmp_)
         form = "; ".join(txt(f) for f in free)
         same = False
@@ -300,6 +307,16 @@ def _replaces_illegal(func: ast.AST, repo=None, rel: str = "") -> bool:
                 and isinstance(n.value, ast.Call) and call_name(n.value) in ("set", "frozenset") and n.value.args
                 and isinstance(n.value.args[0], ast.Constant) and isinstance(n.value.args[0].value, str)
                 and set('/ :;,()|"\'*?') <= set(n.value.args[0].value)}
+    if not charsets and repo is not None and rel:
+        # the set may be a module-level constant
+        module = repo.mod(rel)
+        for n in walk_local(func):
+            if isinstance(n, ast.Name) and isinstance(n.ctx, ast.Load):
+                cnode = repo.module_const_node(module, n.id)
+                if isinstance(cnode, ast.Call) and call_name(cnode) in ("set", "frozenset") and cnode.args \
+                        and isinstance(cnode.args[0], ast.Constant) and isinstance(cnode.args[0].value, str) \
+                        and set('/ :;,()|"\'*?') <= set(cnode.args[0].value):
+                    charsets.add(n.id)
     if not charsets:
         return False
     cfg = CFG(func)
@@ -392,6 +409,22 @@ def r16_2(ctx: Ctx) -> None:
                 and isinstance(node.value, ast.Call) and call_name(node.value) in ("set", "frozenset") and node.value.args \
                 and isinstance(node.value.args[0], ast.Constant) and isinstance(node.value.args[0].value, str):
             charset_name, chars, site = node.targets[0].id, set(node.value.args[0].value), node
+    if not charset_name:
+        # ... or a module-level constant that the function tests membership in
+        from ..index import UNRESOLVED
+        module = ctx.repo.mod(RP)
+        for node in walk_local(func):
+            if isinstance(node, ast.Compare) and len(node.ops) == 1 and isinstance(node.ops[0], (ast.In, ast.NotIn)) \
+                    and isinstance(node.comparators[0], ast.Name):
+                value = ctx.repo.const(module, node.comparators[0])
+                if value is UNRESOLVED:
+                    cnode = ctx.repo.module_const_node(module, node.comparators[0].id)
+                    if isinstance(cnode, ast.Call) and call_name(cnode) in ("set", "frozenset") and cnode.args \
+                            and isinstance(cnode.args[0], ast.Constant) and isinstance(cnode.args[0].value, str):
+                        value = set(cnode.args[0].value)
+                if value is not UNRESOLVED and isinstance(value, (set, frozenset, str, tuple, list)) and value \
+                        and all(isinstance(c, str) and len(c) == 1 for c in value):
+                    charset_name, chars, site = node.comparators[0].id, set(value), node
     need = set('/ :;,()|"\'*?')
     ctx.ob("R16.2", RP, site, qual, "illegal character set", bool(charset_name) and need <= chars,
            "the removed characters include the ones unusable in file names and GenBank headers",
@@ -429,7 +462,7 @@ def r16_2(ctx: Ctx) -> None:
     strip_calls = [c for c, _ in strips]
 
     def derives_from_strip(name: str) -> bool:
-        return any(v in strip_calls for v in bound_from(func, name))
+        return any(v in strip_calls for v in _sources(func, name))
     stage_writes = [w for w in writes if w.value in strip_calls
                     or any(derives_from_strip(n.id) for n in ast.walk(w.value) if isinstance(n, ast.Name))]
     ok = bool(stage_writes)
@@ -443,7 +476,7 @@ def r16_2(ctx: Ctx) -> None:
     # a stripped id may only lose characters or be a generated one: value provenance
     for w in stage_writes:
         val = w.value
-        srcs = bound_from(func, val.id) if isinstance(val, ast.Name) else [val]
+        srcs = _sources(func, val.id) if isinstance(val, ast.Name) else [val]
         ok = all(v in strip_calls or txt(v).endswith(".id")
                  or (isinstance(v, ast.Subscript) and _is_generated(v, registry)) or _is_generated(v, registry)
                  or (isinstance(v, ast.Name) and v.id == getattr(val, "id", None)) for v in srcs) or \
@@ -451,6 +484,22 @@ def r16_2(ctx: Ctx) -> None:
                 for n in walk_local(func))
         ctx.ob("R16.2", RP, w, qual, f"stripped value {stmt_key(w)}", ok,
                "the final id is the stripped id or a generated replacement for it", form="; ".join(txt(v)[:50] for v in srcs))
+
+
+def _sources(func: ast.AST, name: str) -> List[ast.AST]:
+    """ the non-name expressions a local may hold, following plain copies (`a = b`) transitively """
+    seen, out, todo = set(), [], [name]
+    while todo:
+        cur = todo.pop()
+        if cur in seen:
+            continue
+        seen.add(cur)
+        for value in bound_from(func, cur):
+            if isinstance(value, ast.Name):
+                todo.append(value.id)
+            else:
+                out.append(value)
+    return out
 
 
 def inline_text(cfg: CFG, at: ast.AST, text: str) -> str:
@@ -529,7 +578,8 @@ def _bounded_expr(cfg: CFG, func: ast.AST, stmt: ast.AST, value: ast.AST, limit:
             continue
         measured = cmp_[0].args[0]
         anchor = expr if hasattr(expr, "_parent") else stmt
-        if txt(measured) != text and txt(inline_reaching(cfg, anchor, measured)) != resolved:
+        named = isinstance(measured, ast.NamedExpr) and isinstance(measured.target, ast.Name) and measured.target.id == text
+        if not named and txt(measured) != text and txt(inline_reaching(cfg, anchor, measured)) != resolved:
             continue
         bound = cmp_[2].value
         if (cmp_[1] == "<=" and bound <= limit) or (cmp_[1] == "<" and bound <= limit + 1):
@@ -563,9 +613,13 @@ def r16_3(ctx: Ctx) -> None:
     later = [w for w in all_writes if w not in writes]
     charset = next((n.targets[0].id for n in walk_local(func) if isinstance(n, ast.Assign) and isinstance(n.targets[0], ast.Name)
                     and isinstance(n.value, ast.Call) and call_name(n.value) in ("set", "frozenset")), "")
+    if not charset:
+        charset = next((n.comparators[0].id for n in walk_local(func) if isinstance(n, ast.Compare) and len(n.ops) == 1
+                        and isinstance(n.ops[0], (ast.In, ast.NotIn)) and isinstance(n.comparators[0], ast.Name)
+                        and n.comparators[0].id.isupper()), "")
     for index, write in enumerate(later):
         val = write.value
-        srcs = bound_from(func, val.id) if isinstance(val, ast.Name) else [val]
+        srcs = _sources(func, val.id) if isinstance(val, ast.Name) else [val]
         gens = [n.value for n in walk_local(func) if isinstance(n, ast.Assign) and isinstance(n.targets[0], ast.Tuple)
                 and isinstance(val, ast.Name) and any(isinstance(e, ast.Name) and e.id == val.id for e in n.targets[0].elts)]
         ok = all(_bounded_expr(cfg, func, write, g, 16)[0] for g in gens) and all(
